@@ -265,6 +265,53 @@ fn check_plain(ctx: &Ctx, ms: &[usize], mempool: bool) -> Result<(&'static str, 
     }
 }
 
+/// two independent coins A and C, one assertion each: absolute locks aggregate over the bundle,
+/// relative and birth ones are evaluated against each coin's own record
+fn check_two(ctx: &Ctx, la: usize, lc: usize) -> Result<(&'static str, u64), (String, String)> {
+    use mc::drive::P2;
+    let sa = sem(ctx.letters[la].0, &ctx.letters[la].1);
+    let sc = sem(ctx.letters[lc].0, &ctx.letters[lc].1);
+    let out = output(&[spend(&P1, &PH1, 5, Sx::list(&conds_of(ctx, &[la]))), spend(&P2, &PH1, 7, Sx::list(&conds_of(ctx, &[lc])))]);
+    let real = real_parse(&out, RFlags::default(), BIG_COST);
+    let a_id = coin_id(&P1, &PH1, 5);
+    let c_id = coin_id(&P2, &PH1, 7);
+    match real {
+        Err(e) => {
+            if sa == Sem::Invalid || sc == Sem::Invalid {
+                return Ok(("two/rejected/invalid-assertion", 1));
+            }
+            // absolute assertions of the two spends are one conjunction; relative ones are independent
+            let abs: Vec<Sem> = [sa, sc].into_iter().filter(|s| matches!(s, Sem::AfterAbsH(_) | Sem::AfterAbsS(_) | Sem::BeforeAbsH(_) | Sem::BeforeAbsS(_))).collect();
+            if !satisfiable(&abs) {
+                return Ok(("two/rejected/unsatisfiable", 1));
+            }
+            Err(("two/parse-rejects-satisfiable".into(), format!("bundle {out:?} rejected with {e:?} although {sa:?} on A and {sc:?} on C are jointly satisfiable")))
+        }
+        Ok(ro) => {
+            if sa == Sem::Invalid || sc == Sem::Invalid {
+                return Err(("parse/accepts-invalid".into(), format!("bundle {out:?} accepted with an invalid assertion")));
+            }
+            let mut n = 0u64;
+            // C's record takes the corner values, A's the full grid
+            for cc in [Chain { height: 0, time: 0, conf: 0, ctime: 0 }, Chain { height: 0, time: 0, conf: MH, ctime: MS }, Chain { height: 0, time: 0, conf: 2, ctime: 1 }] {
+                for c in &ctx.grid {
+                    let mut recs = HashMap::new();
+                    recs.insert(Bytes32::new(a_id), record(P1, PH1, 5, c));
+                    recs.insert(Bytes32::new(c_id), record(P2, PH1, 7, &cc));
+                    let got = check_time_locks(&recs, &ro.owned, c.height as u32, c.time as u64, true).is_ok();
+                    let state_c = Chain { height: c.height, time: c.time, conf: cc.conf, ctime: cc.ctime };
+                    let want = holds(sa, c) && holds(sc, &state_c);
+                    n += 1;
+                    if got != want {
+                        return Err((format!("check-two/{}", if got { "passes-but-assertion-fails" } else { "fails-but-assertions-hold" }), format!("bundle {out:?}\nstate A {c:?} C {state_c:?}\ncheck_time_locks -> {got}, per-assertion conjunction -> {want} ({sa:?} on A, {sc:?} on C)")));
+                    }
+                }
+            }
+            Ok(("two/accepted", n))
+        }
+    }
+}
+
 /// the multiset on an ephemeral coin B (created by A in the same bundle)
 fn check_ephemeral(ctx: &Ctx, ms: &[usize]) -> Result<&'static str, (String, String)> {
     let sems: Vec<Sem> = ms.iter().map(|i| sem(ctx.letters[*i].0, &ctx.letters[*i].1)).collect();
@@ -301,7 +348,7 @@ fn run(rep: &Report) {
     let ctx = Ctx { letters, grid: grid() };
     let max = rep.tier.pick(3, 4);
     let ms = multisets(ctx.letters.len(), max);
-    rep.set_rule(&format!("every multiset of <= {max} conditions over 10 lock/birth kinds x 8 argument atoms (ff, '', 01, 02, 2^32-1, 2^32, 2^64-1, 2^64) on coin A, both visitors, x 576 chain states (height in {{0,1,2,3,2^32-2,2^32-1}} x timestamp in {{0,1,2,3,2^64-2,2^64-1}} x confirmed index in {{0,1,2,2^32-1}} x coin timestamp in {{0,1,2,2^64-1}}); plus every multiset of <= {} on an ephemeral coin. distinct = distinct multisets", max.min(2)));
+    rep.set_rule(&format!("every multiset of <= {max} conditions over 10 lock/birth kinds x 8 argument atoms (ff, '', 01, 02, 2^32-1, 2^32, 2^64-1, 2^64) on coin A, both visitors, x 576 chain states (height in {{0,1,2,3,2^32-2,2^32-1}} x timestamp in {{0,1,2,3,2^64-2,2^64-1}} x confirmed index in {{0,1,2,2^32-1}} x coin timestamp in {{0,1,2,2^64-1}}); plus every multiset of <= {} on an ephemeral coin; plus two independent coins A and C with one letter each (all 6400 ordered pairs) x A's full grid x 3 records for C. distinct = distinct multisets", max.min(2)));
     rep.assume("per-assertion semantics: after-kinds now >= bound, before-kinds now < bound, birth = equality, relative bound = min(confirmed + arg, type max); negative after / oversize before are tautologies, negative before / oversize after / negative or oversize birth can never hold");
     rep.assume("satisfiability of rejected bundles is decided exactly per dimension over the breakpoints of the piecewise-linear bounds");
     rep.extra("multisets", json!(ms.len()));
@@ -340,6 +387,28 @@ fn run(rep: &Report) {
             rep.outcome_n(&k, n);
         }
     });
+    // two coins, one assertion each
+    let nl = ctx.letters.len();
+    let pairs: Vec<(usize, usize)> = (0..nl).flat_map(|a| (0..nl).map(move |c| (a, c))).collect();
+    pairs.par_chunks(64).for_each(|chunk| {
+        let mut buckets: BTreeMap<String, u64> = BTreeMap::new();
+        let mut evals = 0u64;
+        for (a, c) in chunk {
+            let case = json!({"kind":"two","a": a, "c": c});
+            match catch(|| check_two(&ctx, *a, *c)) {
+                Ok(Ok((b, n))) => {
+                    evals += n;
+                    *buckets.entry(b.to_string()).or_insert(0) += 1;
+                }
+                Ok(Err((sig, d))) => rep.violation(&format!("C03/{sig}"), case, d),
+                Err(p) => rep.violation("C03/panic", case, p),
+            }
+        }
+        rep.evals(evals);
+        for (k, n) in buckets {
+            rep.outcome_n(&k, n);
+        }
+    });
     rep.sample(json!({"multiset": "[(82 . 01), (86 . 02)]", "meaning": "height >= min(conf+1,max) and height < min(conf+2,max)", "checked_on": "576 chain states"}));
     rep.sample(json!({"multiset": "[(84 . 0x010000000000000000)]", "meaning": "oversize before-bound: tautology, still a relative-class condition (rejected on an ephemeral coin)"}));
 }
@@ -348,10 +417,13 @@ fn replay(case: &Value) -> String {
     let args = arg_letters();
     let letters: Vec<(u8, Vec<u8>)> = KINDS.iter().flat_map(|k| args.iter().map(move |a| (*k, a.clone()))).collect();
     let ctx = Ctx { letters, grid: grid() };
-    let m: Vec<usize> = case["multiset"].as_array().unwrap().iter().map(|x| x.as_u64().unwrap() as usize).collect();
+    let empty = vec![];
+    let m: Vec<usize> = case["multiset"].as_array().unwrap_or(&empty).iter().map(|x| x.as_u64().unwrap() as usize).collect();
     let desc: Vec<String> = m.iter().map(|i| format!("({} . {})", ctx.letters[*i].0, hex::encode(&ctx.letters[*i].1))).collect();
     if case["kind"] == "plain" {
         format!("{desc:?}: {:?}", check_plain(&ctx, &m, case["mempool"].as_bool().unwrap()))
+    } else if case["kind"] == "two" {
+        format!("{:?}", check_two(&ctx, case["a"].as_u64().unwrap() as usize, case["c"].as_u64().unwrap() as usize))
     } else {
         format!("{desc:?} on ephemeral coin: {:?}", check_ephemeral(&ctx, &m))
     }
